@@ -15,6 +15,7 @@ func init() {
 			"PV-API keyword lookup exact (mixed-case names stay identifiers)",
 			"PV-ROLE ParseOptions.AllowDots reaches lexer and parser; FE-CLASS scanner identifier characters (a leading `_` starts an identifier)",
 			"PV-WHOLE mergeIter.init pushes the first record of every non-empty stream",
+			"PV-ROLE the scanner reads Tokenize's own parameter",
 		},
 		NotDecided: []string{"the empty key (maps to the empty name; recorded as an assumption)", "collisions of two Docker keys that sanitise to the same name", "that the representatives cover every rune: they cover both sides of every comparison constant in the ASCII range and letters/digits/symbols outside it"},
 		Rules: func(r *Run) {
@@ -29,6 +30,7 @@ func init() {
 			ruleParserOptionsReachLexer(r)
 			ruleScannerIdentRune(r)
 			ruleMergeIter(r) // every selected container contributes its records
+			ruleLexerInputVerbatim(r)
 		},
 	})
 }
